@@ -166,6 +166,16 @@ theorem C08_batches_below_counter (cap : Nat) (s : P6.State) (h : P6.Reachable (
     (b : P6.Batch) (hb : b ∈ P6.seq s x) : b.lo + b.n ≤ s.ctr :=
   (P6.inv_reachable h).below x b hb
 
+/-- **The messages of one Publish request stay contiguous.** The id ranges of any two publish turns are
+    disjoint and do not interleave: no id of another request lies inside the range `lo+1 … lo+n` of a
+    request, whatever the interleaving of the publishers (one Publish request is one publish turn). -/
+theorem C08_request_ranges_disjoint (cap : Nat) (s : P6.State) (h : P6.Reachable (P6.init cap) s) :
+    (P6.turnBatches s).Pairwise (fun a b => ∀ i, a.lo < i → i ≤ a.lo + a.n → ¬ (b.lo < i ∧ i ≤ b.lo + b.n)) := by
+  refine (C08_accept_order cap s h).imp ?_
+  intro a b hab i h1 h2 h3
+  unfold P6.Before at hab
+  omega
+
 /-! non-vacuity: two racing publishers at capacity 1; subscription 1 handles the batches in accept order -/
 example :
     (P6.run (P6.init 1)
